@@ -73,16 +73,27 @@ def gen(rng, tier):
         if role == "master":
             kind = "idle" if (topo == "socket" or specs[0].endswith("main_thread_only")) else rng.choice(["idle", "sleep", "recv"])
         else:
-            kind = rng.choice(c05.PROGRAMS)
+            kind = rng.choice(c05.PROGRAMS + ["cbdrop"])
         progs[gi] = kind
         if kind == "idle":
             continue
         label = f"c{gi}"
         aid = len(actors)
         actors.append({"side": "w", "gw": gi, "chan": label, "ops": []})
-        actors[aid]["ops"] = c05.prog_ops(rng, kind, label, actors, gi)
+        if kind == "cbdrop":
+            # the worker keeps a callback registered on a channel whose object it has dropped; the initiator holds
+            # the other end, so nothing unregisters it before the connection goes away
+            sub = f"s{gi}"
+            actors[aid]["ops"] = [["send", label, f"{label}:w2i:x:started", ["none"]], ["newchan", sub],
+                                  ["setcb", sub, rng.random() < 0.5, None],
+                                  ["sendchan", label, sub, f"{label}:w2i:x:chan", "bare"], ["drop", sub], ["gc"]]
+            actors[aid]["ops"] += rng.choice([[], [["recv", label]], [["sleep", 1000.0]]])
+        else:
+            actors[aid]["ops"] = c05.prog_ops(rng, kind, label, actors, gi)
         main.append(["exec", label, aid, gi])
         main.append(["recv", label])
+        if kind == "cbdrop":
+            main.append(["recvchan", label, f"s{gi}"])
     # optional streaming of data towards a worker that receives (to die mid-transfer)
     streaming = False
     for gi, pname, role in members:
